@@ -35,10 +35,10 @@ def rows_from_ticks(moves, start, tick, t0=T0):
 
 
 @st.composite
-def structural(draw, n, tick=None, max_body=4, max_wick=4, gap_sizes=(1, 2, 3, 6), start=None, t0=T0):
+def structural(draw, n, tick=None, max_body=4, max_wick=4, gap_sizes=(1, 2, 3, 6), start=None, t0=T0, gap_ps=(0, 0, 1, 2, 5)):
     tick = tick if tick is not None else draw(st.sampled_from(TICKS + REAL_TICKS[:1]))
     start = start if start is not None else draw(st.sampled_from([200, 200, 400, 1000, 20000]))
-    gap_p = draw(st.sampled_from([0, 0, 1, 2, 5]))  # out of 10
+    gap_p = draw(st.sampled_from(list(gap_ps)))  # out of 10
     flat_p = draw(st.sampled_from([0, 0, 1, 3]))
     signed = [g * s for g in gap_sizes for s in (1, -1)]
     gap_choices = [0] * (10 - gap_p) + [signed[i % len(signed)] for i in range(gap_p)]
